@@ -446,8 +446,16 @@ func bisyncTxnDebugSummary(cmds []bisyncAofCommand) string {
 	return strings.Join(parts, ",")
 }
 
-func (ro *RedisOutput) parseAofReplayUnits(replayQuit usync.WaitCloser, reader *bufio.Reader, startOffset int64, unitBuf chan *bisyncReplayUnit) error {
+func (ro *RedisOutput) parseAofReplayUnits(replayQuit usync.WaitCloser, reader *bufio.Reader, startOffset int64, unitBuf chan *bisyncReplayUnit) (err error) {
 	defer close(unitBuf)
+	// the sender takes the closed unit channel for the regular end of the run and ends without an error : the parser's
+	// error (an unroutable unit, a corrupted stream) has to be on record before the channel is closed, else the sender's
+	// nil wins the race and the run ends as if nothing had happened
+	defer func() {
+		if err != nil {
+			replayQuit.Close(err)
+		}
+	}()
 	defer ro.logger.Infof("scheme1 replay-unit parser is stopped")
 	keyResolver, closeResolver := ro.newBisyncCommandKeyResolver()
 	defer closeResolver()
